@@ -22,6 +22,9 @@ mod platform;
 pub mod fsyncer;
 pub mod page_pool;
 
+#[cfg(feature = "verif-hooks")]
+mod verif;
+
 pub const PAGE_SIZE: usize = 4096;
 
 pub use page_pool::{FatPage, PagePool};
